@@ -1,9 +1,76 @@
 import SoundeventModel.Ops.Common
+import SoundeventModel.Affinity
 namespace SE.Ops.C06
-open Lean SE
+open Lean SE SE.Affinity
 
-def handle (op : String) (_a : Json) : Except String Json := do
+def getObs (j : Json) : Except String Obs := do
+  return ⟨← fldRat j "area", ← fldRat j "st", ← fldRat j "en"⟩
+
+/-- the measured values of a case (absent sides read as zeros and are never consulted) -/
+def getObserved (a : Json) : Except String Observed := do
+  let os ← match fldOpt a "obs" with
+    | none => pure []
+    | some v => (← getArr v).mapM (fun j => match j with
+        | .null => pure (default : Obs)
+        | j => getObs j)
+  let it ← match fldOpt a "inter" with
+    | none => pure []
+    | some v => (← getArr v).mapM getRatList
+  return { obs := fun k => os.getD k default, inter := fun i j => (it.getD i []).getD j 0 }
+
+/-- which values of shapely a side needs: "interval" | "box" (closed forms), "plain"
+    (`geometry_to_shapely g`), "buffered" (`geometry_to_shapely (buffer_geometry g tb fb)`) -/
+def sidePlan (g : Geom) (tb fb : Rat) : Json :=
+  match prepare unitGeos g tb fb with
+  | .error e => Json.mkObj [("raise", Json.str e.name)]
+  | .ok p =>
+    let kind := match p with
+      | .interval .. => "interval"
+      | .box .. => "box"
+      | .shape .. => if bufferTypes.contains g.tag then "buffered" else "plain"
+    Json.mkObj [("kind", Json.str kind), ("time", boolJ (isTime p))]
+
+def verdictJ (v : ContractVerdict) : Json :=
+  Json.mkObj [("sane", boolJ v.sane), ("inter_le_min", boolJ v.interLeMin), ("symm", boolJ v.symm),
+    ("self", boolJ v.self), ("disjoint", boolJ v.disjoint)]
+
+def handle (op : String) (a : Json) : Except String Json := do
   match op with
+  | "plan" =>
+    let g1 ← getGeom (← fld a "g1")
+    let g2 ← getGeom (← fld a "g2")
+    let tb ← fldRat a "tb"
+    let fb ← fldRat a "fb"
+    return Json.mkObj [("s1", sidePlan g1 tb fb), ("s2", sidePlan g2 tb fb)]
+  | "affinity" | "affinity_pair" =>
+    let g1 ← getGeom (← fld a "g1")
+    let g2 ← getGeom (← fld a "g2")
+    let tb ← fldRat a "tb"
+    let fb ← fldRat a "fb"
+    let O ← getObserved a
+    let measured := (fldOpt a "boxes_measured").bind (fun j => j.getBool?.toOption) |>.getD false
+    -- side 0 is g1, side 1 is g2 (equal geometries share side 0: GEOS is deterministic)
+    let G := observedGeos O (fun g => if g == g1 then 0 else 1) measured
+    let r12 := affinity G g1 g2 tb fb
+    let r21 := affinity G g2 g1 tb fb
+    match r12, r21 with
+    | .ok x, .ok y => return valJ (if op == "affinity" then ratJ x else ratsJ [x, y])
+    | .error e, _ => return raiseJ e
+    | _, .error e => return raiseJ e
+  | "contract" =>
+    let O ← getObserved a
+    let tol ← fldRat a "tol"
+    return verdictJ (checkContract tol O)
+  | "judge" =>
+    let o : Observation := ⟨← fldRat a "a12", ← fldRat a "a21", ← fldBool a "same", ← fldBool a "extent_pos",
+      ← fldBool a "disjoint"⟩
+    let v := judgeObs o
+    return Json.mkObj [("all", boolJ v.all), ("range", boolJ v.range), ("symm", boolJ v.symm),
+      ("self", boolJ v.self), ("disjoint", boolJ v.disjoint)]
+  | "iou" =>
+    return valJ (ratJ (iouC (← fldRat a "a") (← fldRat a "b") (← fldRat a "i")))
+  | "time_iou" =>
+    return valJ (ratJ (timeIoU (← fldRat a "s1") (← fldRat a "e1") (← fldRat a "s2") (← fldRat a "e2")))
   | _ => .error s!"C06: unknown op {op}"
 
 end SE.Ops.C06
